@@ -24,6 +24,8 @@
 //         actor=<thread index; == number of threads: an auxiliary non-logging worker>
 //         delivery=raise|pthread_kill|kill|fault  drain=0|1  prealloc=0|1
 //         (kill: process-directed, every thread but the actor blocks the signals; fault: null store, 1/0, ud2, abort())
+//         second=<ms>: with delivery=raise, a parked thread raises the SAME signal <ms> milliseconds after the actor (quill's
+//         handler is documented to be entered by several threads: only the first one works, the others wait)
 //   Every thread logs its first `pre` statements "<thread>:<seq>:<checksum>:<payload>", then it exits (exits=1, joined
 //   by main), parks (polling a flag), or - the actor - waits until all others are quiescent, writes report.txt
 //   ("completed c0 c1 ..", "written W", "t_event <CLOCK_MONOTONIC s>") and performs the termination event.
@@ -232,6 +234,7 @@ struct Spec
   std::string delivery{"raise"};
   bool drain{false};
   bool prealloc{false};
+  long second_ms{-1}; // >= 0: a second (parked) thread raises the same signal that many ms after the actor did
   // cycles
   unsigned live{0};
   std::vector<CycleSpec> cycles;
@@ -288,6 +291,7 @@ Spec build_spec(std::vector<Line> const& lines)
       s.delivery = kv_str(l.kv, "delivery", "raise");
       s.drain = kv_int(l.kv, "drain", 0) != 0;
       s.prealloc = kv_int(l.kv, "prealloc", 0) != 0;
+      s.second_ms = kv_int(l.kv, "second", -1);
     }
     else if (l.key == "live") s.live = static_cast<unsigned>(std::strtoul(p0().c_str(), nullptr, 10));
     else if (l.key == "cycle")
@@ -509,10 +513,23 @@ struct Program
     pthread_sigmask(SIG_BLOCK, &set, nullptr);
   }
 
+  std::atomic<int> second_sig{0};
+  std::atomic<int> second_raiser{-1};
+
   void park(unsigned t)
   {
     parked[t].store(1);
-    while (!finish.load()) nap_us(200);
+    while (!finish.load())
+    {
+      nap_us(200);
+      if (second_sig.load() != 0 && second_raiser.load() == static_cast<int>(t))
+      {
+        int const sig = second_sig.load();
+        if (spec.second_ms > 0) nap_us(spec.second_ms * 1000);
+        ::raise(sig); // the handler parks this thread (or the process is already gone)
+        for (;;) nap_us(1000);
+      }
+    }
   }
 
   void write_report()
@@ -578,6 +595,11 @@ struct Program
     }
     if (spec.delivery == "raise" || spec.delivery == "fault")
     {
+      if (spec.delivery == "raise" && spec.second_ms >= 0)
+      {
+        for (unsigned o = 0; o < kMaxThreads; ++o)
+          if (o != spec.actor && parked[o].load()) { second_raiser.store(static_cast<int>(o)); second_sig.store(sig); break; }
+      }
       ::raise(sig);
       _exit(77); // the handler must not return here for any of the six signals
     }
